@@ -156,18 +156,39 @@ void tokenizer_free(TOKEN_SCANNER scanner)
 YY_BUFFER_STATE tokenizer_buf(TOKEN_SCANNER scanner)
 {
   char str[1024];
+  char * buf = 0;
+  size_t len = 0;
+  YY_BUFFER_STATE b = 0;
   /* check the reader exists */
-  if (scanner->reader != 0)
+  if (scanner->reader == 0)
+    return 0;
+  /* A scan buffer must not end inside a lexeme, or the lexeme would be split.
+   * No lexeme spans a new line (strings and comments are scanned piecewise in
+   * their own start condition), therefore the chunks delivered by the reader
+   * are gathered until a new line or the end of the stream. */
+  for (;;)
   {
     int n = 0;
+    char * tmp;
     scanner->reader(scanner->handle, str, &n, 1023);
-    if (n > 0)
-    {
-      str[n] = '\0';
-      return yy_scan_string(str, scanner->scanner);
-    }
+    if (n <= 0)
+      break;
+    tmp = (char*) realloc(buf, len + (size_t) n + 1);
+    if (tmp == 0)
+      break;
+    buf = tmp;
+    memcpy(buf + len, str, (size_t) n);
+    len += (size_t) n;
+    if (buf[len - 1] == '\n')
+      break;
   }
-  return 0;
+  if (len > 0)
+  {
+    buf[len] = '\0';
+    b = yy_scan_string(buf, scanner->scanner);
+  }
+  free(buf);
+  return b;
 }
 
 void tokenizer_scan(TOKEN_SCANNER scanner, TOKEN_CALLBACK callback)
